@@ -7,6 +7,7 @@ import NngModel.Proofs.PairJudgeSend
 import NngModel.Proofs.PairJudgeRecv
 import NngModel.Proofs.PairJudgeClose
 import NngModel.Proofs.PairOpened
+import NngModel.Proofs.PairLive
 namespace Nng.Pair0
 open Nng Nng.Proto Nng.PairSpec
 
@@ -36,7 +37,7 @@ theorem good_mono {V : Variant} {v1 : Bool} {sS sR sS' sR' : List Bytes} {s : St
 /-! ### the socket is closed: nothing is checked any more -/
 
 theorem idle_advance {j : PairJ} (ms : Nat) (herr : j.err = none) (hr : j.racing = false) (hc : j.closed = true) :
-    pairStep j (.advance ms) [] = { j with lastPoll := none } := by
+    pairStepOld j (.advance ms) [] = { j with lastPoll := none } := by
   rw [pairStep_eq herr (by simp [notExecuted])]
   have hpre : pairPre false { j with lastPoll := none } (.advance ms) [] = ({ j with lastPoll := none }, .none) := rfl
   rw [hpre]
@@ -46,7 +47,7 @@ theorem idle_advance {j : PairJ} (ms : Nat) (herr : j.err = none) (hr : j.racing
   exact pairQuiescent_closed (j := { j with lastPoll := none }) hc
 
 theorem closed_Rc {V : Variant} {s : State} {j : PairJ} (h : Rc s j) (ev : Ev) :
-    Rc (step V s ev).1 (pairStep j ev (step V s ev).2) := by
+    Rc (step V s ev).1 (pairStepOld j ev (step V s ev).2) := by
   obtain ⟨ho, hc, he, hjc, hr⟩ := h
   unfold step
   rw [if_neg (by simp [ho]), if_pos hc]
@@ -62,7 +63,7 @@ theorem closed_Rc {V : Variant} {s : State} {j : PairJ} (h : Rc s j) (ev : Ev) :
 
 theorem closed_R' {V : Variant} {v1 : Bool} {sS sR : List Bytes} {s : State} {j : PairJ}
     (hR : R' V v1 sS sR s j) (ho : s.opened = true) (hc : s.closed = true) (ev : Ev) :
-    R' V v1 sS sR (step V s ev).1 (pairStep j ev (step V s ev).2) := by
+    R' V v1 sS sR (step V s ev).1 (pairStepOld j ev (step V s ev).2) := by
   unfold step
   rw [if_neg (by simp [ho]), if_pos hc]
   cases ev
@@ -79,7 +80,7 @@ theorem closed_R' {V : Variant} {v1 : Bool} {sS sR : List Bytes} {s : State} {j 
 /-! ### the socket is not open yet -/
 
 theorem phA_step {V : Variant} {v1 : Bool} {sS sR : List Bytes} {s : State} {j : PairJ} (hV : VJ V v1)
-    (h : PhA V v1 s j) (ev : Ev) : Good V v1 sS sR (step V s ev).1 (pairStep j ev (step V s ev).2) := by
+    (h : PhA V v1 s j) (ev : Ev) : Good V v1 sS sR (step V s ev).1 (pairStepOld j ev (step V s ev).2) := by
   obtain ⟨rfl, n, rfl⟩ := h
   unfold step
   rw [if_pos (by rfl)]
@@ -88,14 +89,14 @@ theorem phA_step {V : Variant} {v1 : Bool} {sS sR : List Bytes} {s : State} {j :
     simp only []
     left
     refine ⟨?_, n + ms, rfl⟩
-    simp [pairStep, pairStepWith, notExecuted, pairPre, pairMid, pairPost, nbClause, pollClause, recordPoll,
+    simp [pairStepOld, pairStepWithOld, notExecuted, pairPre, pairMid, pairPost, nbClause, pollClause, recordPoll,
       pairQuiescent, liveCount, J0, isBlocked]
   case openSock pr raw =>
     simp only []
     right; left
     refine ⟨rfl, ?_⟩
-    have hj : pairStep (J0 V v1) (.openSock pr raw) [.rv 0] = { J0 V v1 with raw := raw } := by
-      simp [pairStep, pairStepWith, notExecuted, pairPre, pairMid, pairPost, nbClause, pollClause, recordPoll,
+    have hj : pairStepOld (J0 V v1) (.openSock pr raw) [.rv 0] = { J0 V v1 with raw := raw } := by
+      simp [pairStepOld, pairStepWithOld, notExecuted, pairPre, pairMid, pairPost, nbClause, pollClause, recordPoll,
         pairQuiescent, liveCount, J0, isBlocked, isDone, onOld, oldGone, pairOut]
     rw [hj]
     refine ⟨?_, fun r w h => by simp [J0] at h⟩
@@ -116,7 +117,7 @@ theorem phA_step {V : Variant} {v1 : Bool} {sS sR : List Bytes} {s : State} {j :
 theorem live_step {V : Variant} {v1 : Bool} {sS sR : List Bytes} {s : State} {j : PairJ} (hV : VJ V v1)
     (hA : All V s) (hI : IdsInv s) (hR : R' V v1 sS sR s j) (ho : s.opened = true) (hc : s.closed = false)
     (ev : Ev) (hab : badAbort ev = false) (hfS : ∀ b ∈ evSend ev, b ∉ sS) (hfR : ∀ b ∈ evArr ev, b ∉ sR) :
-    Good V v1 (sS ++ evSend ev) (sR ++ evArr ev) (step V s ev).1 (pairStep j ev (step V s ev).2) := by
+    Good V v1 (sS ++ evSend ev) (sR ++ evArr ev) (step V s ev).1 (pairStepOld j ev (step V s ev).2) := by
   have hop : (step V s ev).1.opened = true := step_opened V s ev ho
   have hA' : All V (stepLive V s ev).1 := by rw [← step_live V ho hc]; exact step_all V hV.bufS s ev hA
   rw [step_live V ho hc] at hop ⊢
@@ -125,7 +126,7 @@ theorem live_step {V : Variant} {v1 : Bool} {sS sR : List Bytes} {s : State} {j 
     fun h ho' => Or.inr (Or.inl ⟨ho', R_mono (fun _ h => List.mem_append_left _ h)
       (fun _ h => List.mem_append_left _ h) h.1, h.2⟩)
   have hrefused : ∀ (ev : Ev) (msg : String), Good V v1 (sS ++ evSend ev) (sR ++ evArr ev) s
-      (pairStep j ev [Out.other msg]) := by
+      (pairStepOld j ev [Out.other msg]) := by
     intro ev msg
     rw [pairStep_refused (by simp [notExecuted])]
     exact Or.inr (Or.inl ⟨ho, R_mono (fun _ h => List.mem_append_left _ h)
@@ -158,7 +159,7 @@ theorem live_step {V : Variant} {v1 : Bool} {sS sR : List Bytes} {s : State} {j 
   case close => exact Or.inr (Or.inr (ev_close hR ho))
   case getopt c n t =>
     have key : ∀ r : State × List Out, r = stepLive V s (.getopt c n t) →
-        Good V v1 (sS ++ evSend (.getopt c n t)) (sR ++ evArr (.getopt c n t)) r.1 (pairStep j (.getopt c n t) r.2) := by
+        Good V v1 (sS ++ evSend (.getopt c n t)) (sR ++ evArr (.getopt c n t)) r.1 (pairStepOld j (.getopt c n t) r.2) := by
       intro r hr
       unfold stepLive at hr
       split at hr
@@ -174,7 +175,7 @@ theorem live_step {V : Variant} {v1 : Bool} {sS sR : List Bytes} {s : State} {j 
   case setopt c n t v =>
     have key : ∀ r : State × List Out, r = stepLive V s (.setopt c n t v) → All V r.1 →
         Good V v1 (sS ++ evSend (.setopt c n t v)) (sR ++ evArr (.setopt c n t v)) r.1
-          (pairStep j (.setopt c n t v) r.2) := by
+          (pairStepOld j (.setopt c n t v) r.2) := by
       intro r hr hAr
       unfold stepLive at hr
       split at hr
@@ -197,10 +198,10 @@ theorem live_step {V : Variant} {v1 : Bool} {sS sR : List Bytes} {s : State} {j 
                   | (subst hr; exact hmono (ev_setTtl hA hR _ hAr) ho)))
     exact key _ rfl hA'
 
-theorem good_step {V : Variant} {v1 : Bool} {sS sR : List Bytes} {s : State} {j : PairJ} (hV : VJ V v1)
+theorem good_step_old {V : Variant} {v1 : Bool} {sS sR : List Bytes} {s : State} {j : PairJ} (hV : VJ V v1)
     (hA : All V s) (hI : IdsInv s) (hG : Good V v1 sS sR s j)
     (ev : Ev) (hab : badAbort ev = false) (hfS : ∀ b ∈ evSend ev, b ∉ sS) (hfR : ∀ b ∈ evArr ev, b ∉ sR) :
-    Good V v1 (sS ++ evSend ev) (sR ++ evArr ev) (step V s ev).1 (pairStep j ev (step V s ev).2) := by
+    Good V v1 (sS ++ evSend ev) (sR ++ evArr ev) (step V s ev).1 (pairStepOld j ev (step V s ev).2) := by
   rcases hG with h | ⟨ho, h⟩ | h
   · exact phA_step hV h ev
   · cases hc : s.closed with
@@ -209,6 +210,150 @@ theorem good_step {V : Variant} {v1 : Bool} {sS sR : List Bytes} {s : State} {j 
       exact good_mono (fun _ h => List.mem_append_left _ h) (fun _ h => List.mem_append_left _ h)
         (Or.inr (Or.inl ⟨step_opened V s ev ho, closed_R' h ho hc ev⟩))
   · exact Or.inr (Or.inr (closed_Rc h ev))
+
+/-! ### receive liveness: the clause `pairLive` -/
+
+theorem pairStep_new (j : PairJ) (ev : Ev) (outs : List Out) :
+    pairStep j ev outs =
+      if j.err.isSome then j else if notExecuted outs then j else pairLive ev outs (pairStepOld j ev outs) := by
+  unfold pairStep pairStepWith pairStepOld pairStepWithOld
+  split
+  · rfl
+  · split
+    · rfl
+    · simp
+
+theorem UR.len_le {u : List Acc} {w : List WMsg} (h : UR u w) : w.length ≤ u.length := by
+  induction h with
+  | nil => simp
+  | keep x b _ ih => simp; omega
+  | skip y _ ih => simp; omega
+
+/-- a message is parked in the pipe only by an arrival that finds the receive buffer full: after an
+    executed `recv_done p <msg>` with a pipe still attached and no receive posted, the buffer is full -/
+theorem recv_full_live (V : Variant) (s : State) (p : Nat) (b : Bytes) (hA : All V s)
+    (hok : Out.rv 0 ∈ (stepLive V s (.recvDone p (.ok b))).2)
+    (hcur : (stepLive V s (.recvDone p (.ok b))).1.cur.isSome = true)
+    (hna : (stepLive V s (.recvDone p (.ok b))).1.pipes.any (·.armed) = false) :
+    (stepLive V s (.recvDone p (.ok b))).1.rmqCap ≤ (stepLive V s (.recvDone p (.ok b))).1.rmq.length := by
+  simp only [stepLive] at hok hcur hna ⊢
+  cases hg : getPipe s p with
+  | none => simp [hg] at hok
+  | some pp =>
+    simp only [hg] at hok hcur hna ⊢
+    by_cases hcb : (pp.closed || !pp.armed) = true
+    · simp [hcb] at hok
+    · simp only [hcb, Bool.false_eq_true, if_false] at hok hcur hna ⊢
+      have hcl' : pp.closed = false := by
+        cases h : pp.closed with
+        | false => rfl
+        | true => simp [h] at hcb
+      have har : pp.armed = true := by
+        cases h : pp.armed with
+        | true => rfl
+        | false => simp [h] at hcb
+      obtain ⟨hrd, hcp⟩ := armed_facts hA.pinv hg hcl' har
+      obtain ⟨s1, hs1⟩ : ∃ s1, s1 = modPipe s p fun q => { q with armed := false } := ⟨_, rfl⟩
+      have hg1 : getPipe s1 p = some { pp with armed := false } :=
+        hs1 ▸ getPipe_modPipe (fun q => { q with armed := false }) (fun _ => rfl) hg
+      have hcur1 : s1.cur = some p := by rw [hs1]; exact hcp
+      have hex1 : ∃ q ∈ s1.pipes, q.id = p := ⟨_, (getPipe_some hg1).1, (getPipe_some hg1).2⟩
+      rw [← hs1] at hcur hna ⊢
+      exact recvCb_parks V b hcur1 hg1 hcl' hcur hna
+
+theorem recv_full (V : Variant) (s : State) (p : Nat) (b : Bytes) (hA : All V s)
+    (hok : Out.rv 0 ∈ (step V s (.recvDone p (.ok b))).2)
+    (hcur : (step V s (.recvDone p (.ok b))).1.cur.isSome = true)
+    (hna : (step V s (.recvDone p (.ok b))).1.pipes.any (·.armed) = false) :
+    (step V s (.recvDone p (.ok b))).1.rmqCap ≤ (step V s (.recvDone p (.ok b))).1.rmq.length := by
+  by_cases ho : s.opened = true
+  · cases hc : s.closed with
+    | false =>
+      rw [step_live V ho hc] at hok hcur hna ⊢
+      exact recv_full_live V s p b hA hok hcur hna
+    | true =>
+      exfalso; unfold step at hok; simp [ho, hc] at hok
+  · exfalso; unfold step at hok; simp [ho] at hok
+
+/-- the clause `pairLive` holds in every judge state related to a served model state -/
+theorem pairLive_ok {V : Variant} {v1 : Bool} {sS sR : List Bytes} {s' : State} {jo : PairJ} {ev : Ev} {outs : List Out}
+    (hR : R V v1 sS sR s' { jo with lastPoll := none }) (hi : Inv s') (hS : Served s')
+    (hfull : ∀ p b, ev = .recvDone p (.ok b) → Out.rv 0 ∈ outs → s'.cur.isSome = true →
+      s'.pipes.any (·.armed) = false → s'.rmqCap ≤ s'.rmq.length) :
+    pairLive ev outs jo = jo := by
+  have hclosed : jo.closed = s'.closed := hR.closed
+  have hlive : jo.live = s'.cur := hR.live
+  have harmed : jo.armed = s'.pipes.any (·.armed) := hR.armed
+  have hheld : UR jo.held ((s'.rmq ++ s'.held.toList).map (·.m)) := hR.held
+  have hrcap : jo.rcap = s'.rmqCap := hR.rcap
+  unfold pairLive
+  by_cases hskip : (jo.closed || jo.live.isNone || jo.armed) = true
+  · rw [if_pos hskip]
+  · rw [if_neg hskip]
+    have hc0 : jo.closed = false := by cases h : jo.closed <;> simp [h] at hskip ⊢
+    have ha0 : jo.armed = false := by cases h : jo.armed <;> simp [h] at hskip ⊢
+    have hl0 : jo.live.isSome = true := by cases h : jo.live <;> simp [h, hc0] at hskip ⊢
+    rw [hclosed] at hc0; rw [harmed] at ha0; rw [hlive] at hl0
+    obtain ⟨p, hp⟩ := Option.isSome_iff_exists.1 hl0
+    obtain ⟨pp, hm, hid, hor⟩ := hS hc0 p hp
+    have hrd : s'.rdReady = true := by
+      rcases hor with h | h
+      · exact h
+      · have := List.any_eq_false.1 ha0 pp hm; simp [h] at this
+    have hsome : s'.held.isSome = true := by rw [← hi.heldRd]; exact hrd
+    have hlen : s'.rmq.length + 1 ≤ jo.held.length := by
+      have := hheld.len_le
+      obtain ⟨gm, hgm⟩ := Option.isSome_iff_exists.1 hsome
+      simpa [hgm] using this
+    have hne : jo.held.isEmpty = false := by
+      cases hh : jo.held with
+      | nil => rw [hh] at hlen; simp at hlen
+      | cons x l => rfl
+    rw [hne]
+    simp only [Bool.false_eq_true, if_false]
+    cases ev <;> try rfl
+    case recvDone p' r =>
+      cases r with
+      | error e => rfl
+      | ok b =>
+        simp only []
+        by_cases hok : Out.rv 0 ∈ outs
+        · have := hfull p' b rfl hok hl0 ha0
+          rw [if_neg]
+          intro hc
+          simp only [Bool.and_eq_true, decide_eq_true_eq] at hc
+          rw [hrcap] at hc; omega
+        · rw [if_neg]
+          simp [hok]
+
+theorem good_step {V : Variant} {v1 : Bool} {sS sR : List Bytes} {s : State} {j : PairJ} (hV : VJ V v1)
+    (hA : All V s) (hI : IdsInv s) (hS : Served s) (hG : Good V v1 sS sR s j)
+    (ev : Ev) (hab : badAbort ev = false) (hfS : ∀ b ∈ evSend ev, b ∉ sS) (hfR : ∀ b ∈ evArr ev, b ∉ sR) :
+    Good V v1 (sS ++ evSend ev) (sR ++ evArr ev) (step V s ev).1 (pairStep j ev (step V s ev).2) := by
+  have hold := good_step_old hV hA hI hG ev hab hfS hfR
+  have herr : j.err = none := by
+    rcases hG with h | ⟨_, h⟩ | h
+    · rw [h.1]; rfl
+    · exact h.1.err
+    · exact h.2.2.1
+  rw [pairStep_new]
+  simp only [herr, Option.isSome_none, Bool.false_eq_true, if_false]
+  by_cases hne : notExecuted (step V s ev).2 = true
+  · rw [if_pos hne]
+    rw [pairStep_refused hne] at hold
+    exact hold
+  · rw [if_neg hne]
+    have hA' := step_all V hV.bufS s ev hA
+    have hS' := step_served V s ev hA hS
+    suffices h : pairLive ev (step V s ev).2 (pairStepOld j ev (step V s ev).2) = pairStepOld j ev (step V s ev).2 by
+      rw [h]; exact hold
+    rcases hold with h | ⟨_, h⟩ | h
+    · rw [h.1]; simp [pairLive, J0]
+    · refine pairLive_ok h.1 hA'.inv hS' ?_
+      intro p b hev hok hcur hna
+      subst hev
+      exact recv_full V s p b hA hok hcur hna
+    · unfold pairLive; simp [h.2.2.2.1]
 
 theorem good_err {V : Variant} {v1 : Bool} {sS sR : List Bytes} {s : State} {j : PairJ}
     (h : Good V v1 sS sR s j) : j.err = none := by
@@ -236,18 +381,19 @@ theorem disjoint_of_nodup {α : Type} {a b c : List α} (h : (a ++ (b ++ c)).Nod
   exact (List.nodup_append.1 h).2.2 x ha x (List.mem_append_left _ hx) rfl
 
 theorem judge_from {V : Variant} {v1 : Bool} (hV : VJ V v1) (evs : List Ev) :
-    ∀ (s : State) (j : PairJ) (sS sR : List Bytes), All V s → IdsInv s → Good V v1 sS sR s j → NoBadAbort evs →
+    ∀ (s : State) (j : PairJ) (sS sR : List Bytes), All V s → IdsInv s → Served s → Good V v1 sS sR s j → NoBadAbort evs →
       (sS ++ sendBodies evs).Nodup → (sR ++ arrivals evs).Nodup →
       ((evs.zip (run V s evs).2).foldl (fun j x => pairStep j x.1 x.2) j).err = none := by
   induction evs with
-  | nil => intro s j sS sR _ _ hG _ _ _; exact good_err hG
+  | nil => intro s j sS sR _ _ _ hG _ _ _; exact good_err hG
   | cons e es ih =>
-    intro s j sS sR hA hI hG hab hnS hnR
+    intro s j sS sR hA hI hS hG hab hnS hnR
     rw [run_snd_cons]
     simp only [List.zip_cons_cons, List.foldl_cons]
     simp only [sendBodies, arrivals, List.flatMap_cons] at hnS hnR
     refine ih _ _ (sS ++ evSend e) (sR ++ evArr e) (step_all V hV.bufS s e hA) (step_ids V s e hI)
-      (good_step hV hA hI hG e (hab e (by simp)) (disjoint_of_nodup hnS) (disjoint_of_nodup hnR))
+      (step_served V s e hA hS)
+      (good_step hV hA hI hS hG e (hab e (by simp)) (disjoint_of_nodup hnS) (disjoint_of_nodup hnR))
       (fun ev h => hab ev (by simp [h])) ?_ ?_
     · simpa [sendBodies, List.append_assoc] using hnS
     · simpa [arrivals, List.append_assoc] using hnR
@@ -255,7 +401,7 @@ theorem judge_from {V : Variant} {v1 : Bool} (hV : VJ V v1) (evs : List Ev) :
 theorem pair_judge_ok {V : Variant} {v1 : Bool} (hV : VJ V v1) (evs : List Ev) (hb : DistinctBodies evs)
     (ha : DistinctArrivals evs) (hn : NoBadAbort evs) :
     ((evs.zip (run V {} evs).2).foldl (fun j x => pairStep j x.1 x.2) (J0 V v1)).err = none :=
-  judge_from hV evs {} (J0 V v1) [] [] (all_init V) ids_init (Or.inl ⟨rfl, 0, rfl⟩) hn
+  judge_from hV evs {} (J0 V v1) [] [] (all_init V) ids_init served_init (Or.inl ⟨rfl, 0, rfl⟩) hn
     (by simpa [DistinctBodies] using hb) (by simpa [DistinctArrivals] using ha)
 
 /-! ### the two protocol versions -/
